@@ -34,6 +34,8 @@ def build_problem(ps):
         return gen.saddle_problem(rng, ps[2], ps[3])
     if kind == "simplex":
         return gen.simplex_qp(rng, ps[2])
+    if kind == "boxlp":
+        return gen.boxlp_problem(rng, ps[2])
     if kind == "narrowrow":
         return gen.narrowrow_problem(rng, float(ps[2]))
     if kind == "expgrowth":
